@@ -9,7 +9,8 @@ of a WELL-TYPED property list through JSON::to_json_string / JSON::parse_as_prop
 import struct
 
 # ------------------------------------------------------------------ strings
-# printable text without quotation mark and backslash (the property's quantifier); brackets only at top level
+# printable text without quotation mark and backslash (the property's quantifier): brackets and non-ASCII characters at every
+# nesting position since the fixes F24d (whole UTF-8 characters) and F24f (string flag of the nesting counters)
 LITERAL_LIKE = ['null', 'true', 'false', 'nul', 'nulll', 'NULL', 'Null', 'None', 'nil', 'n', 't', 'f', 'tru', 'fals', 'True', 'FALSE',
                 '0', '1', '-1', '-', '+', '+1', '1.5', '-0.0', '0.0', '1e5', '1E5', '-1e-5', 'e', 'E', '.', '.5', '1.', '1..2', '--1',
                 'NaN', 'nan', 'inf', '-inf', 'Infinity', '0x10', '007', '1_000', '170141183460469231731687303715884105728',
@@ -19,6 +20,36 @@ PUNCT_LIKE = [',', ', ', ' ,', ',,', ',a', 'a,', ':', ': ', ' :', '::', ':a', 'a
               '@', '!', '?', '*', '~', '^', '|', '=', '==', '+', '_', '()', '(', ')', '<>', '<', '>', 'a=b&c=d', 'http://h/p?q=1#f']
 SPACE_LIKE = [' ', '  ', '   ', ' a', 'a ', ' a ', '  a  ', 'a b', 'a  b', ' , ', ' : ', ' - ', ' 1', '1 ', ' null ', ' true', 'false ']
 BRACKET_LIKE = ['{', '}', '[', ']', '{}', '[]', '}{', '][', '[1,2]', '{a: 1}', 'a]', 'a}', '[a', '{a', ']]', '}}', '[[', '{{']
+
+# one character of every encoded length (2, 3, 4 bytes; first and last scalar of each length; White_Space and numeric scalars, which
+# the scanners treat specially OUTSIDE strings; a combining mark; scalars whose bytes contain 0x22 / 0x5c / bracket values are
+# impossible in UTF-8, but continuation bytes 0x80..0xbf and lead bytes are covered by the boundaries)
+MB2 = ['\u0080', 'é', 'ß', 'я', '\u00a0', '\u0085', '\u07ff', '½', '٣', '\u0301']
+MB3 = ['\u0800', '€', '漢', '\u3000', '\u2028', '\ud7ff', '\ue000', '\uffff', '\ufeff', '③', '\u1680']
+MB4 = ['\U00010000', '\U0001F600', '\U0010FFFF', '\U0001D7D8', '\U00020000']
+BRACKETS = ['{', '}', '[', ']']
+JSON_LIKE = ['{a: 1}', '[1,2]', '{}', '[]', '{k: [1, {y: 2}]}', '[{}]', '{[}]', '}{', '][', '[[[', ']]]', '{{{', '}}}', '[}', '{]', '}]', '],[', '},{',
+             ',]', ',}', ':{', ':[', '[ ', ' ]', '{ ', ' }', 'null]', 'true}', '1]', '-1}', '[null', '{true']
+
+def positions(ch, rng=None):
+    """the character first / in the middle / last / alone / doubled / around a blank"""
+    return [ch, ch + 'ab', 'a' + ch + 'b', 'ab' + ch, ch + ch, ch + ' ' + ch, ' ' + ch, ch + ' ']
+
+def multibyte_strings():
+    out = []
+    for ch in MB2 + MB3 + MB4: out += positions(ch)
+    out += ['é€\U0001F600', '\U0001F600€é', 'a\U0001F600b€cé', 'é' * 7, '€' * 5, '\U0001F600' * 3, 'Ελληνικά', 'кириллица', '日本語のテキスト', 'مرحبا', 'e\u0301']
+    return out
+
+def bracket_strings():
+    out = []
+    for ch in BRACKETS: out += positions(ch)
+    out += JSON_LIKE
+    # combinations: a bracket right after the opening quote, a non-ASCII character right before the closing quote, and the reverse
+    for b in BRACKETS:
+        for ch in ('é', '€', '\U0001F600'):
+            out += [b + ch, ch + b, b + 'x' + ch, ch + 'x' + b, b + ch + b]
+    return out
 
 def special_strings():
     return LITERAL_LIKE + PUNCT_LIKE + SPACE_LIKE
@@ -207,16 +238,24 @@ def docs_strings(rng, G, quick):
         if nested_ok:
             d['o1'] = order(G, {'s1': s, 'i2': 1}); d['astr'] = [s, 'mid', s]; d['ao'] = [order(G, {'s2': s}), order(G, {'b1': True, 's2': s})]
         return order(G, d)
+    def deep(s):
+        """the string at every nesting position: first / last field, nested object (depth 1 and 2), element of a string array (top level,
+        inside a nested object, inside an element of an array of objects), field of an element of an array of objects (also
+        of one nested in a nested object, and of an array of objects inside an element)"""
+        leaf = order(G, {'s1': s, 'astr': [s], 's2': s})
+        mid = order(G, {'s1': s, 'o1': leaf, 'astr': ['a', s], 'ao': [leaf, order(G, {'s2': s})], 'o2': order(G, {'s2': s})})
+        return order(G, {'s1': s, 'o1': mid, 'astr': [s, 'mid', s], 'ao': [order(G, {'s2': s}), mid, order(G, {'astr': [s, s]})], 's2': s, 'o2': leaf})
     for s in special_strings():
         out.append(order(G, {'s1': s})); out.append(everywhere(s))
         if rng.chance(1, 3): out.append(order(G, {'b1': True, 'astr': [s]}))
     for s in BRACKET_LIKE:
-        out.append(order(G, {'s1': s})); out.append(everywhere(s, nested_ok=False))
+        out.append(order(G, {'s1': s})); out.append(everywhere(s))
+    for s in bracket_strings() + multibyte_strings():
+        out.append(order(G, {'s1': s})); out.append(order(G, {'astr': [s]})); out.append(order(G, {'o1': order(G, {'s1': s})}))
+        out.append(order(G, {'ao': [order(G, {'s1': s})]})); out.append(everywhere(s)); out.append(deep(s))
     for c in G.PRINTABLE:
-        br = c in '{}[]'
         d = {'s1': c, 's2': 'x' + c}
-        if not br:
-            d['astr'] = [c, c + 'x', 'x' + c]; d['o2'] = order(G, {'s1': c + c, 's2': c + 'x' + c})
+        d['astr'] = [c, c + 'x', 'x' + c]; d['o2'] = order(G, {'s1': c + c, 's2': c + 'x' + c})
         out.append(order(G, d))
     for n in long_lengths(quick):
         s = long_string(rng, G, n)
@@ -311,7 +350,7 @@ def relayout_array(t):
 def extra_flats(rng, G, quick):
     out = []
     mk = lambda s, b, c, i, f: [('prop_a', 's', s), ('prop_b', 'b', b), ('prop_c', 'b', c), ('prop_d', 'i', i), ('prop_e', 'f', f)]
-    ss = special_strings() + BRACKET_LIKE
+    ss = special_strings() + BRACKET_LIKE + bracket_strings() + multibyte_strings()
     for k, s in enumerate(ss):
         out.append(mk(s, k % 2 == 0, k % 3 == 0, G.gen_int(rng, *G.INT_TYPES['i128']), G.gen_f64(rng)))
     for c in G.PRINTABLE:
@@ -359,8 +398,10 @@ def extra_string_lists(rng, G, quick):
     out += [[''] * n for n in (1, 2, 3, 64)] + [[' '] * n for n in (1, 2, 3)] + [['a'] * n for n in (2, 3, 64)]
     for a, b in [('', 'a'), ('a', ''), ('a', 'b'), (' ', ''), ('a,b', 'a'), ('null', 'true')]:
         out += [[a, b, a], [a, a, b], [b, a, a], [a, b, b, a]]
-    out += [[c, c + 'x', 'x' + c] for c in G.PRINTABLE if c not in '{}[]']
-    out += [[c for c in G.PRINTABLE if c not in '{}[]'][i:i + 31] for i in (0, 31, 62)]
+    out += [[c, c + 'x', 'x' + c] for c in G.PRINTABLE]
+    out += [G.PRINTABLE[i:i + 31] for i in (0, 31, 62)]
+    mb = bracket_strings() + multibyte_strings()
+    out += [[s] for s in mb] + chunks(mb, 16) + [['a', s, 'b'] for s in mb[::2]] + [[s, s] for s in mb[1::3]]
     for n in long_lengths(quick):
         s = long_string(rng, G, n)
         out += [[s], ['', s, ''], [s, s]]
@@ -380,11 +421,17 @@ def extra_bool_lists(rng, G, quick):
 NAMES = ['a', 'A', 'z', '_', '__', 'x1', 'x_1', 'a0', 'id', 'Id', 'ID', 'type', 'name', 'value', 'null', 'true', 'false', 'n', 't', 'f', 'e', 'E',
          'nul', 'tru', 'fals', 'inf', 'nan', 'NaN', 'i128', 'f64', 'bool', 'String', 'object', 'array', 'snake_case_name', 'camelCaseName',
          'PascalCase', 'SCREAMING_CASE', 'trailing_', '_leading', 'a_b_c_d_e_f', 'l' * 31, 'm' * 32, 'w' * 64, 'q' * 255, 'k' * 256,
-         'prop_a', 's1', 'o1', 'ao', 'property_name', 'property_type', 'x' * 1000]
+         'prop_a', 's1', 'o1', 'ao', 'property_name', 'property_type', 'x' * 1000,
+         # names are string literals too: non-ASCII of every encoded length at every position, brackets, blanks, punctuation (no `"`, `\\`, `:`)
+         'é', 'éa', 'aé', 'aéb', '€', '€x', 'x€', 'a€b', '\U0001F600', '\U0001F600k', 'k\U0001F600', 'a\U0001F600b', 'ключ', '鍵', 'é€\U0001F600', '\u00a0', 'a\u00a0', '\u3000b',
+         '٣', '½x', '{', '}', '[', ']', '{}', '[]', 'a{', '}a', 'a]b', '[k]', '{k}', ']é', 'é[', '}\U0001F600{', 'a b', ' a', 'a ', 'a,b', 'a-b', 'a.b', '1', '-1']
 RAW_OBJECTS = ['{\r\n}', '{\r\n  "k": 1\r\n}', '{\r\n  "k": "v",\r\n  "n": -2.5\r\n}', '{\r\n  "in": {\r\n  "k": true\r\n}\r\n}',
                '{\r\n  "l": [1,2],\r\n  "m": [{\r\n  "z": 0\r\n},\r\n{\r\n}]\r\n}']
+RAW_OBJECTS += ['{\r\n  "k": "}"\r\n}', '{\r\n  "k": "{"\r\n}', '{\r\n  "k}": "]é",\r\n  "é[": "\U0001F600{"\r\n}', '{\r\n  "a": ["]","[","}{"],\r\n  "b": {\r\n  "c": "}}"\r\n}\r\n}',
+                '{\r\n  "é": "€",\r\n  "\U0001F600": [1]\r\n}', '{\r\n  "l": [{\r\n  "z]": "[é"\r\n},\r\n{\r\n}]\r\n}', '{\r\n  "k": "é"\r\n}', '{\r\n  "k": "a]b[c}d{e"\r\n}']
 RAW_ARRAYS = ['[]', '[1]', '[1,2]', '[-1,0,1]', '["a","b"]', '[""]', '[true]', '[false,true]', '[null,null]', '[-1.5,2]', '[0.0]',
-              '[{\r\n  "k": 1\r\n},\r\n{\r\n}]', '[{\r\n}]', '[340282366920938463463374607431768211455]']
+              '[{\r\n  "k": 1\r\n},\r\n{\r\n}]', '[{\r\n}]', '[340282366920938463463374607431768211455]',
+              '["]"]', '["["]', '["}","{"]', '["é"]', '["a€","\U0001F600b"]', '["]é","[€"]', '[{\r\n  "k]": "}é"\r\n},\r\n{\r\n  "[": "]"\r\n}]', '[["]"],["["]]', '["[1,2]","{}"]']
 
 def typed_props(rng, G, quick, floats):
     """lists of (name, type, kind, value): name an identifier, the declared type the one of the value; `floats` = bit patterns whose
@@ -392,8 +439,11 @@ def typed_props(rng, G, quick, floats):
     out = []
     def name(rng, used):
         for _ in range(50):
-            k = rng.below(4)
+            k = rng.below(5)
             if k == 0: n = rng.choice(NAMES)
+            elif k == 4:
+                alpha = 'abcXYZ_09 ' + ''.join(MB2[:4] + MB3[:3] + MB4[:2]) + '{}[]'
+                n = ''.join(rng.choice(alpha) for _ in range(rng.choice([1, 2, 3, 5, 9])))
             else:
                 first = 'abcdefghijklmnopqrstuvwxyzABCDEFGHIJKLMNOPQRSTUVWXYZ_'
                 n = rng.choice(first) + ''.join(rng.choice(first + '0123456789') for _ in range(rng.choice([0, 1, 2, 5, 11, 30])))
@@ -401,7 +451,7 @@ def typed_props(rng, G, quick, floats):
         return 'u%d' % len(used)
     def value(rng):
         k = rng.below(7)
-        if k == 0: return ('String', 's', rng.choice(special_strings()) if rng.chance(1, 3) else G.gen_str(rng, 'printable'))
+        if k == 0: return ('String', 's', rng.choice(special_strings() + bracket_strings() + multibyte_strings()) if rng.chance(1, 2) else G.gen_str(rng, rng.choice(['printable', 'mixed'])))
         if k == 1: return ('bool', 'b', rng.chance(1, 2))
         if k == 2: return ('i128', 'i', G.gen_int(rng, *G.INT_TYPES['i128']))
         if k == 3:
